@@ -759,7 +759,76 @@ def run_fwdmask(c):
     return out
 
 
-RUNNERS = {"fwdmask": run_fwdmask, "lifecycle": run_lifecycle, "lse-exact": run_lse_exact, "lse-laws": run_lse_laws, "grid": run_grid, "dgrid": run_dgrid, "funcrep": run_funcrep, "mapcoord": run_mapcoord, "gridcoord": run_gridcoord, "map": run_map, "call": run_call, "scs": run_scs, "scs-mdl": run_scs_mdl, "argmax": run_argmax, "segargmax": run_segargmax, "reduce": run_reduce}
+def run_errreport(c):
+    """Model(...) with several documented rules violated at once: which of them does the one error name?  (The phrases come
+    from the specification: Lifecycle!RuleMarker, printed by MC_Lifecycle.)"""
+    import random
+
+    from lcm import Model
+
+    m = c["mdl"]
+    rules = set(c["rules"])
+    rng = random.Random(c.get("variant", 0))
+    sn, cn = MDL.state_names(m), MDL.choice_names(m)
+    grids = {v["name"]: MDL.build_grid(v) for v in m["vars"]}
+    funcs = MDL.build_functions(m)
+    states = {n: grids[n] for n in sn}
+    choices = {n: grids[n] for n in cn}
+    n_periods = m["T"]
+    if "R1" in rules:
+        n_periods = rng.choice([0, -1])
+    if "R2" in rules:
+        del funcs["utility"]
+    if "R3" in rules:
+        del funcs["next_" + rng.choice(sn)]
+    if "R4" in rules:
+        choices[rng.choice(sn)] = grids[cn[0]] if cn else grids[sn[0]]
+    out = {k: v for k, v in c.items() if k not in ("mdl", "markers")}
+    try:
+        Model(n_periods=n_periods, functions=funcs, states=states, choices=choices)
+        out["obs"] = {"cls": "accepted", "mentions": []}
+    except Exception as e:  # noqa: BLE001
+        out["obs"] = {"cls": type(e).__name__, "mentions": sorted(r for r, phrase in c["markers"].items() if phrase in str(e))}
+    return out
+
+
+def run_replace(c):
+    """Model.replace: a new validated object, the original untouched."""
+    import dataclasses
+
+    m = c["mdl"]
+    model = MDL.build(m)
+    before = (model.n_periods, dict(model.functions), dict(model.states), dict(model.choices), model.description)
+    field = c["field"]
+    if field == "n_periods":
+        new_val, bad_val = model.n_periods + 1, 0
+    elif field == "description":
+        new_val, bad_val = "another description", None
+    elif field == "functions":
+        new_val = {k: v for k, v in reversed(list(model.functions.items()))}
+        bad_val = {k: v for k, v in model.functions.items() if k != "utility"}
+    else:  # states
+        new_val = {k: v for k, v in reversed(list(model.states.items()))}
+        bad_val = {**model.states, next(iter(model.choices)): next(iter(model.states.values()))}
+    new = model.replace(**{field: new_val})
+    after = (model.n_periods, dict(model.functions), dict(model.states), dict(model.choices), model.description)
+    others = [f.name for f in dataclasses.fields(model) if f.name != field]
+    cls = ""
+    if bad_val is not None:
+        try:
+            model.replace(**{field: bad_val})
+            cls = "accepted"
+        except Exception as e:  # noqa: BLE001
+            cls = type(e).__name__
+    else:
+        cls = "ModelInitilizationError"      # description has no invalid value
+    out = {k: v for k, v in c.items() if k != "mdl"}
+    out["obs"] = {"orig_unchanged": before == after, "is_new_object": new is not model, "new_has_value": getattr(new, field) == new_val,
+                  "others_kept": all(getattr(new, n) == getattr(model, n) for n in others), "invalid_rejected_cls": cls}
+    return out
+
+
+RUNNERS = {"errreport": run_errreport, "replace": run_replace, "fwdmask": run_fwdmask, "lifecycle": run_lifecycle, "lse-exact": run_lse_exact, "lse-laws": run_lse_laws, "grid": run_grid, "dgrid": run_dgrid, "funcrep": run_funcrep, "mapcoord": run_mapcoord, "gridcoord": run_gridcoord, "map": run_map, "call": run_call, "scs": run_scs, "scs-mdl": run_scs_mdl, "argmax": run_argmax, "segargmax": run_segargmax, "reduce": run_reduce}
 
 
 def run_unit(c):
